@@ -389,6 +389,11 @@ class ExprMixin:
         ck = e.get('castKind')
         sub = e['inner'][0]
         if ck == 'LValueToRValue':
+            u = unwrap(sub, ('ParenExpr',))
+            if (u.get('kind') == 'BinaryOperator' and u.get('opcode') in ASSIGN_OPS and not self.is_class(u)) \
+                    or u.get('kind') == 'CompoundAssignOperator' \
+                    or (u.get('kind') == 'UnaryOperator' and u.get('opcode') in ('++', '--') and not u.get('isPostfix')):
+                return self.rv(u, cx)     # in C the assignment expression is already the assigned value
             return self.lv(sub, cx)
         if ck == 'NoOp':
             if self.is_glvalue(e):
